@@ -305,6 +305,47 @@ theorem c13_project_fresh_partial (h : List (Op Text)) (hn : h.length ≤ u32Max
     rw [(query_of_inv i₁.db (fun g => rfl) hv k id).1,
         (query_of_inv i₂.db (fun g => (hsrc g).symm) hv k id).1]
 
+/-! ### Known finding in the analysis itself (`C13-enum-next-value-overflow`)
+
+The clause "no query panics for any file contents" is about the queries, which the model leaves
+uninterpreted; it is tested, not proved.  The one place where the test stream found it false is
+modelled so that the defect and what remains true are stated precisely. -/
+
+/-- **Counterexample to "no query panics for any file contents".**  `TYPE E : (A :=
+9223372036854775807); END_TYPE`: the single explicit value is `i64::MAX`, `next_value = value + 1`
+overflows and (dev profile) `file_symbols` of the file — and, through
+`project_symbol_tables_query`, every project-level query of every file — panics. -/
+theorem c13_counterexample_enum_overflow : enumAssign [some i64Max] 0 = .panic := by
+  decide
+
+/-- **Partial claim for enumeration values.**  Guard: every explicit value, and the start value,
+leaves room for the values that follow it (`v + length ≤ i64::MAX`).  Then the value bookkeeping of
+`collect_enum_type` does not overflow, whatever mixture of explicit and implicit values. -/
+theorem c13_enum_values_partial (l : List (Option Int)) (next : Int)
+    (hnext : next + l.length ≤ i64Max)
+    (hexp : ∀ v, some v ∈ l → v + l.length ≤ i64Max) :
+    enumAssign l next ≠ .panic := by
+  induction l generalizing next with
+  | nil => simp [enumAssign]
+  | cons e rest ih =>
+    have hlen : ((e :: rest).length : Int) = rest.length + 1 := by simp
+    have hpos : (0 : Int) ≤ rest.length := Int.natCast_nonneg _
+    have hval : e.getD next + rest.length + 1 ≤ i64Max := by
+      cases e with
+      | none => simp only [Option.getD_none]; omega
+      | some v =>
+        have := hexp v (List.mem_cons_self ..)
+        simp only [Option.getD_some]; omega
+    have hrest := ih (e.getD next + 1) (by omega)
+      (fun v hv => by have := hexp v (List.mem_cons_of_mem _ hv); omega)
+    unfold enumAssign
+    simp only
+    have hno : ¬ e.getD next + 1 > i64Max := by omega
+    rw [if_neg hno]
+    cases hr : enumAssign rest (e.getD next + 1) with
+    | ok l => simp
+    | panic => exact absurd hr hrest
+
 /-! ### Non-vacuity -/
 
 /-- A history with an edit, a removal, a re-addition and interleaved queries; its final texts,
@@ -366,5 +407,9 @@ example :
   have e1 : (projRun ([.set 0 100, .set 1 101, .query .analyze 1, .set 0 102] : List (Op Nat))).ids = [(0, 0), (1, 1)] := by decide
   have e2 : (projRun (loadFresh ([(0, 102), (1, 101)] : List (Nat × Nat)))).ids = [(0, 0), (1, 1)] := by decide
   simp only [e1, e2]
+
+/-- `c13_enum_values_partial` is not vacuous: explicit and implicit values up to `i64::MAX - 1`. -/
+example : enumAssign [none, some 5, none, some (i64Max - 1)] 0 = .ok [0, 5, 6, i64Max - 1] := by
+  decide
 
 end TrustVerif.C13
